@@ -3763,8 +3763,13 @@ where
       if let Some(r) = rule_from_ident(self.state.cddl, ident) {
         // Check for recursion to prevent stack overflow
         if self.state.visited_rules.contains(&visited_key) {
-          // We've already validated this rule in the current validation path
-          // This is a recursive reference, so we allow it and assume it's valid
+          // The rule is being validated at this very position of the document: a
+          // reference that comes back to it without consuming any input denotes
+          // nothing (`a = b`, `b = a`), it does not match
+          self.add_error(format!(
+            "Recursive rule reference detected: {}. This may indicate a circular definition in the CDDL schema.",
+            ident.ident
+          ));
           return Ok(());
         }
 
@@ -3781,6 +3786,10 @@ where
       // 2.2.2). Such a choice has no base rule for `rule_from_ident` to find.
       if !type_choice_types_from_ident(self.state.cddl, ident).is_empty() {
         if self.state.visited_rules.contains(&visited_key) {
+          self.add_error(format!(
+            "Recursive rule reference detected: {}. This may indicate a circular definition in the CDDL schema.",
+            ident.ident
+          ));
           return Ok(());
         }
 
